@@ -130,13 +130,17 @@ CHECKS = {
         technique="TLA+ transcription of the pipeline lexer (ordered rule list, lazy), recursive-descent parser, printer and typed option conversion (PipelineSpec.tla): TLC checks print-then-parse identity over a bounded value universe and diagnostic-totality over every short text; the real printer / parser / from_spec / spec() are run on generated passes, ArgSpecs and texts and TLC judges the recorded results against the model and the property's clauses",
         text="TLC checks on the model that each of 220k ArgSpecs (strings over a 15-character alphabet with quotes, backslashes, separators, newline, tab, non-ASCII; booleans; integers; plain and exponent-form floats; 1-2 parameters, 0-2 values) prints to a text that parses back to it, must refute the claim for values without textual form (negative control), and that every text over a 20-character alphabet up to length 4 (thorough: 5) lexes into tiling tokens and ends in a result or a diagnostic. Conformance: every registered pass (133) and ten synthetic pass classes covering the documented option types get generated option values (ints to 10^20, boundary/random-bit floats, strings with special characters, tuples, None, literals) and are taken through spec() -> str -> parse_pipeline -> from_spec -> str; generated ArgSpec pipelines likewise; every text over the alphabet up to length 3 (thorough: 4), mutated printed specs, random token sequences and malformed option lists are parsed for real. TLC evaluates RoundTrip (Python ==), ReprintStable and FailsOnlyWithDiagnostics on the recorded data and compares every real result with the model's (divergence).",
         note="Trusted: PipelineSpec.tla as transcription (kept honest by the zero-divergence requirement reported in the evidence); the decimal->binary64 rounding table computed with exact rationals in the harness (TLC has no floats); equality of passes is Python's ==. Lone surrogates are not generated. Four defects repaired, three open findings (inf/nan, \\r \\f \\v in strings, () in an optional tuple field); each case touching an open finding has a twin without the offending value that is judged separately."),
+    "C08": dict(
+        category="exploration", design_ref="DESIGN.md §11.10",
+        technique="TLA+ statement of value semantics over payload trees (ValueSem.tla: same value iff same payload tree; reflexive / symmetric / transitive / hash-consistent / same-parameters-equal / different-payloads-unequal), model-checked by TLC for three candidate float-leaf equalities over a float domain with signed zeros and NaN payloads (only the bit pattern passes), and evaluated by TLC on recorded ==/hash matrices of families of real attributes and CSE keys",
+        text="Families of 2-10 real attributes are compared pairwise for real (== and hash()) and TLC evaluates the laws on each recorded matrix together with the payload trees projected by the harness: every distinct attribute of the corpus (quick: ~4000 from a seeded sample of files, thorough: all) with the same attribute parsed again through another context, ~350 generated builtin attributes (FloatData / FloatAttr of six float types over signed zeros, four NaN payloads, infinities, subnormals; integers at width boundaries; strings, bytes, symbol refs, dense arrays and dense elements with -0.0 / NaN, shaped types, arrays, dictionaries in two orders, affine maps, unregistered attributes and types parsed in two contexts) each with an independently rebuilt twin, single-parameter mutants built with .new(), and all generated attributes of one class against each other; likewise the CSE keys (OperationInfo) of region-free corpus operations with clones and clones with one attribute replaced.",
+        note="Trusted: the payload projection (class, parameters in order, leaves by exact content, floats by binary64 pattern, Python bool = int, dictionaries as mappings) defines 'observably different'; attributes that are unhashable or whose payload holds objects without a value repr are skipped and counted. Four defects repaired (FloatData ==/hash, DLTI entry maps comparing equal regardless of content, unregistered attributes across contexts); no open finding."),
 }
 
 NOT_APPLICABLE = {
     "C05": "custom assembly formats of ~80 dialects: an encode/decode identity over hand-written print/parse pairs with no state/transition content a TLA+ model could add (DESIGN §5)",
     "C06": "bit-exact literal round-trip incl. IEEE-754 payloads and Unicode strings: TLC has neither floats nor character-level strings (DESIGN §5)",
     "C07": "parser robustness on arbitrary text and time proportional to input: a property of byte strings and wall-clock time, i.e. fuzzing, not model checking (DESIGN §5)",
-    "C08": "==/hash laws of attribute values with float payloads (signed zeros, NaN bit patterns): algebraic laws of Python value objects, no state to model, no floats in TLC (DESIGN §5)",
 }
 
 
